@@ -36,6 +36,7 @@ type C04Plan struct {
 	Runners   []simwork.RunnerPlan `json:"runners"`
 	Ops       []c04Op              `json:"ops"`
 	Crashes   []c04Crash           `json:"crashes"`
+	Remote    *RemotePlan          `json:"remote,omitempty"` // the unit runs on another node and the controller is the one that crashes (remote_test.go)
 	Enumerate bool                 `json:"enumerate"` // replace Crashes[0].Step by every step index of the fault-free trace
 	MaxEnum   int                  `json:"max_enum"`
 	Shrink    []string             `json:"_shrink"`
@@ -44,6 +45,11 @@ type C04Plan struct {
 func genC04(seed uint64, tier string) any {
 	r := simnet.NewRng(seed, "c04")
 	p := &C04Plan{Shrink: []string{"ops"}}
+	if r.Bool(0.3) {
+		p.Remote = genRemote(r, "c04", tier)
+		p.Shrink = []string{"remote.faults"}
+		return p
+	}
 	for i := 0; i < 6; i++ {
 		rp := genRunnerPlan(r, false)
 		p.Runners = append(p.Runners, rp)
@@ -485,6 +491,10 @@ func copyDir(src, dst string) error {
 
 func runC04(t *testing.T, planAny any, res *simnet.Result) {
 	p := planAny.(*C04Plan)
+	if p.Remote != nil {
+		runRemote(t, p.Remote, "c04", res)
+		return
+	}
 	if !p.Enumerate {
 		c04Exec(t, p, res.Seed, 0, false, res)
 		res.Class = fmt.Sprintf("ops=%d crashes=%d", len(p.Ops), len(p.Crashes))
